@@ -148,4 +148,23 @@ def ditAdd (l : List Nat) (c : Cursor) (x : Nat) : List Nat × Cursor :=
   | some k => (l.insertIdx k x, { c with cur := some k })
 def ditIndex (c : Cursor) : Nat := c.pos
 
+/-! lock-step cursor over two lists (`follow` as for `itAdd`) -/
+def zitNext (l1 l2 : List Nat) (c : Cursor) : Stat × Option (Nat × Nat) × Cursor :=
+  if c.pos < l1.length ∧ c.pos < l2.length then
+    (.ok, some (l1.getD c.pos 0, l2.getD c.pos 0), { pos := c.pos + 1, cur := some c.pos })
+  else (.iterEnd, none, c)
+def zitRemove (l1 l2 : List Nat) (c : Cursor) : Stat × Option (Nat × Nat) × List Nat × List Nat × Cursor :=
+  match c.cur with
+  | none => (.errValueNotFound, none, l1, l2, c)
+  | some k => (.ok, some (l1.getD k 0, l2.getD k 0), l1.eraseIdx k, l2.eraseIdx k, { pos := c.pos - 1, cur := none })
+def zitAdd (follow : Bool) (l1 l2 : List Nat) (c : Cursor) (x1 x2 : Nat) : List Nat × List Nat × Cursor :=
+  match c.cur with
+  | none => (l1, l2, c)
+  | some k => (l1.insertIdx (k + 1) x1, l2.insertIdx (k + 1) x2,
+               { pos := c.pos + 1, cur := some (if follow then k + 1 else k) })
+def zitReplace (l1 l2 : List Nat) (c : Cursor) (x1 x2 : Nat) : Stat × Option (Nat × Nat) × List Nat × List Nat :=
+  match c.cur with
+  | none => (.errValueNotFound, none, l1, l2)
+  | some k => (.ok, some (l1.getD k 0, l2.getD k 0), l1.set k x1, l2.set k x2)
+
 end CC.Spec.LSeq
